@@ -337,6 +337,8 @@ struct MaskBFS {
         std::snprintf(note, sizeof note, "bfs %s: states=%llu transitions=%llu abstract=%llu max_depth=%u closure=%s", subject.c_str(),
                       (unsigned long long)n_states, (unsigned long long)n_trans, (unsigned long long)canon.size(), max_depth_reached, N <= 16 ? "yes" : "bounded");
         reg().notes.push_back(note);
+        reg().bfs_states += n_states;
+        reg().bfs_transitions += n_trans;
         for (std::map<std::string, Stat*>::iterator it = stats.begin(); it != stats.end(); ++it)
             if (it->second->samples.empty()) add_sample(*it->second, "{\"states\":" + u64s(n_states) + ",\"transitions\":" + u64s(n_trans) + ",\"example_state\":" + jstr(abs_str(alpha(from_raw<M>(gens.back())))) + "}");
     }
